@@ -201,6 +201,10 @@ def catalogue():
     # a reader of k racing with remove(k) + insert of ANOTHER key that re-uses the freed slot
     mk("get-vs-rem-put-other", [b"a", b"b"], [[G(b"a")], [R(b"a"), P(b"c", b"other-key-value")]], extra_finals=[b"c"])
     mk("get-vs-rem-put-other2", [b"a", b"b", b"c"], [[G(b"b"), G(b"b")], [R(b"b"), P(b"bb", b"zz")]], extra_finals=[b"bb"])
+    mk("get-vs-rem-put-other-lastkey", [b"a"], [[G(b"a")], [R(b"a"), P(b"c", b"other-key-value")]], extra_finals=[b"c"])
+    mk("uput-uput-after-emptied", [b"a"], [[U(b"c", b"t0")], [R(b"a"), U(b"c", b"t1x")]], extra_finals=[b"c"])
+    mk("get-vs-rem-put-other-lastkey-l1", [b"prefix88a", b"z"], [[G(b"prefix88a")], [R(b"prefix88a"), P(b"prefix88c", b"other")]],
+       extra_finals=[b"prefix88c"])
     # a reader of the greatest / a middle key racing with a remove or an insert of another key (ranks shift)
     mk("get-last-vs-rem-first", [b"a", b"b", b"c"], [[G(b"c")], [R(b"a")]])
     mk("get-last-vs-rem-mid", [b"a", b"b", b"c", b"d"], [[G(b"d"), G(b"c")], [R(b"b")]])
@@ -213,6 +217,20 @@ def catalogue():
         mk("rtl-vs-split-%s" % newk.hex(), full, [[RTL], [P(newk, b"new")]], extra_finals=[newk])
         mk("scan-vs-split-%s" % newk.hex(), full, [[ALL], [P(newk, b"new")]], extra_finals=[newk])
         mk("limited-vs-split-%s" % newk.hex(), full, [["scan %s - INF - INF 9 0" % S], [P(newk, b"new")]], extra_finals=[newk])
+    # right-to-left scan while the last border loses its last key and is unlinked: the answer moves to the left border
+    mk("rtl-vs-unlink-last", two, [[RTL], [R(two[19])]], removed=two[8:19])
+    mk("rtl-vs-unlink-last-reinsert", two, [[RTL], [R(two[19]), P(two[19] + b"a", b"new")]], removed=two[8:19],
+       extra_finals=[two[19] + b"a"])
+    mk("rtl-vs-unlink-last-l1", [b"a"] + [b"prefix88" + k for k in two] + [b"prefix99"],
+       [["scan %s - INF - INF 1 1" % S], [R(b"prefix99")]])
+    # a scan that first visits a border WITHOUT a hit (left endpoint above all its keys), then retries in the next border
+    # because of an insert there; afterwards an insert into the first border's part of the range must still be detected
+    mk("nohit-border-then-retry", two, [["scan %s %s IN - INF 0 0" % (S, hx(two[7] + b"a"))],
+                                        [P(two[12] + b"x", b"new"), P(two[7] + b"b", b"new2")]],
+       extra_finals=[two[12] + b"x", two[7] + b"b"])
+    mk("nohit-border-then-retry3", two, [["scan %s %s IN - INF 0 0" % (S, hx(two[7] + b"a"))],
+                                         [P(two[12] + b"x", b"new")], [P(two[7] + b"b", b"new2")]],
+       extra_finals=[two[12] + b"x", two[7] + b"b"])
     mk("rtl-vs-split-two", two, [[RTL], [P(two[-1] + b"a", b"new"), P(two[-1] + b"b", b"new")]],
        extra_finals=[two[-1] + b"a", two[-1] + b"b"])
     # scan whose in-range entries of the enclosing border are all layer links, against an insert into that border
@@ -244,6 +262,15 @@ def catalogue():
     for nm, rd in (("scan", ALL), ("cursor", IALL), ("cursor-rev", IREV)):
         mk("l1-%s-vs-collapse" % nm, [b"a"] + two1 + [b"z"], [[rd], [R(two1[0])]], removed=two1[1:8])
         mk("l1-%s-vs-collapse-right" % nm, [b"a"] + two1 + [b"z"], [[rd], [R(two1[19])]], removed=two1[9:19])
+    # interior collapse while the promoted sibling is full and is being split (it needs its parent's lock)
+    k23 = [bytes([0x30 + 2 * i]) for i in range(23)]        # ascending inserts: borders of 8 and 15 entries
+    for pfx, tag in ((b"", "l0"), (b"prefix88", "l1")):
+        kk = [pfx + k for k in k23]
+        extra = [b"a", b"z"] if pfx else []
+        mk("collapse-vs-split-" + tag, extra[:1] + kk + extra[1:], [[R(kk[0])], [P(kk[20] + b"x", b"new")]], removed=kk[1:8],
+           extra_finals=[kk[20] + b"x"])
+        mk("collapse-vs-split-low-" + tag, extra[:1] + kk + extra[1:], [[R(kk[0])], [P(kk[9] + b"x", b"new")], [G(kk[22])]],
+           removed=kk[1:8], extra_finals=[kk[9] + b"x"])
     # scan standing between two borders while the left one is emptied and unlinked (F8)
     mk("scan-vs-unlink-reinsert", two, [["scan %s %s IN %s IN 0 0" % (S, hx(two[0]), hx(two[15]))],
                                         [R(two[0]), P(two[0], b"again")]], removed=two[1:8])
@@ -348,6 +375,7 @@ def run_once(binary, scen_text, workdir, idx, timeout=60):
     r.rc, r.out, r.text = rc, out, scen_text
     r.hist, r.final, r.fscan, r.lockbits, r.schedule, r.steps, r.abort = [], {}, {}, {}, [], 0, None
     r.reval = []
+    r.leak = None
     for ln in out.split("\n"):
         if ln.startswith("H "):
             _, step, rest = ln.split(" ", 2)
@@ -367,6 +395,10 @@ def run_once(binary, scen_text, workdir, idx, timeout=60):
             r.steps = int(ln.split()[1])
         elif ln.startswith("SCHED-ABORT"):
             r.abort = ln
+        elif ln.startswith("LEAK "):
+            m = re.match(r"LEAK live=(-?\d+) bytes=(-?\d+)", ln)
+            if m:
+                r.leak = (int(m.group(1)), int(m.group(2)))
         elif ln.startswith("REVAL "):
             m = re.match(r"REVAL (\d+) stale=(\d) nvn=(\d+) args=(.*)$", ln)
             if m:
@@ -603,6 +635,9 @@ def check_run(r, scen, want=("lin", "null", "scan", "deadlock", "coherent")):
                 if k not in keys2 and not stale:
                     bad.append(("seen_or_stale", "insert of %s completed, the key is not in the scan result %s and every "
                                 "collected (version,node) pair is unchanged" % (k.hex(), [x.hex() for x in keys2])))
+    if "leak" in want and r.leak is not None and (r.leak[0] > 0 or r.leak[1] > 0):
+        bad.append(("leak", "after fin() the process still holds %d block(s) / %d byte(s) of library memory more than after an "
+                    "empty init/fin cycle" % r.leak))
     r.lin_jobs = []
     if "lin" in want:
         for k, lst in perkey.items():
